@@ -189,7 +189,7 @@ def gen_plan(seed, tier):
         elif kind == 'derive':
             parent = d.below(n_worlds)
             nc_kind = d.weighted([('empty', 4), ('same_name', 2), ('new_name', 2), ('flag', 2), ('slices', 1), ('tides', 1),
-                                  ('tides_nested', 1), ('earlier_name', 1)])
+                                  ('tides_nested', 1), ('earlier_name', 1), ('layer_geometry', 1)])
             nn_kind = d.weighted([('none', 5), ('parent_name', 2), ('parent_config_name', 1), ('fresh', 2)])
             fresh += 1
             ops.append({'op': 'derive', 'parent': parent, 'new_config': nc_kind, 'new_name': nn_kind, 'tag': fresh,
@@ -346,6 +346,17 @@ class WorldChainEngine(EngineBase):
             except Exception as e:
                 trace.append('%2d %s -> raised %s: %s' % (i, label, type(e).__name__, str(e)[:100]))
                 bump('probe:builder_raised_' + type(e).__name__)
+                if op.get('new_config') == 'layer_geometry':
+                    # a contradictory geometry override may legitimately be refused; the inputs must still be intact
+                    for (obj, before, desc) in inputs:
+                        dmsg = first_difference(before, obj)
+                        if dmsg:
+                            viol('no-mutation', 'input-dict-mutated', 'step %d %s (which raised) changed the %s: %s' % (i, label, desc, dmsg), op=op['op'])
+                            break
+                    worlds.append(parent)
+                    if violations:
+                        break
+                    continue
                 # a builder that refuses a configuration is not a bookkeeping violation by itself, but for shipped worlds,
                 # empty derivations and scalings of valid worlds it must not happen
                 viol('builds', 'raised:%s:%s' % (op['op'], type(e).__name__),
@@ -355,7 +366,9 @@ class WorldChainEngine(EngineBase):
             trace.append('%2d %s -> %s (%s)' % (i, label, new_world.name, type(new_world).__name__))
             meta = '%s#%d' % (new_world.name, len(worlds))
             # ---- invariants of the new world ----
-            self._geometry(new_world, i, label, mass_given if op['op'] == 'build_cfg' else ('mass' in new_world.config and new_world.config.get('mass') is not None), viol, bump)
+            judge_geometry = op.get('new_config') != 'layer_geometry'
+            if judge_geometry:
+              self._geometry(new_world, i, label, mass_given if op['op'] == 'build_cfg' else ('mass' in new_world.config and new_world.config.get('mass') is not None), viol, bump)
             if op['op'] == 'build':
                 ref = self.reference.get(op['name'])
                 if isinstance(ref, dict):
@@ -385,7 +398,10 @@ class WorldChainEngine(EngineBase):
                 if dmsg:
                     viol('no-mutation', 'input-dict-mutated', 'step %d %s changed the %s: %s' % (i, label, desc, dmsg), op=op['op'])
                     break
-            worlds.append((new_world, snapshot(new_world), meta))
+            if op.get('new_config') == 'layer_geometry':
+                worlds.append(parent)        # the child of a geometry override is not used as a parent later
+            else:
+                worlds.append((new_world, snapshot(new_world), meta))
             if violations:
                 break
         n_derivations = sum(1 for o in plan['ops'] if o['op'] in ('derive', 'scale'))
@@ -422,6 +438,18 @@ class WorldChainEngine(EngineBase):
             return {'tides_on': bool(op['value'] % 2)}
         if k == 'tides_nested':
             return {'tides': {'eccentricity_truncation_lvl': [2, 4, 6, 8][op['value'] % 4]}, 'tides_on': True}
+        if k == 'layer_geometry':
+            # overrides one geometric key of one layer.  The inherited counterpart (thickness vs radius) may then contradict
+            # it, so nothing is demanded of the CHILD's geometry; the clause under test is that the inputs are not mutated.
+            if 'layers' in pw.config and pw.config['layers'] and hasattr(pw, 'layers'):
+                names = list(pw.config['layers'].keys())
+                lname = names[op['value'] % len(names)]
+                layer = [L for L in pw if L.name == lname]
+                if layer:
+                    if op['tag'] % 2:
+                        return {'layers': {lname: {'radius': layer[0].radius * 0.97}}}
+                    return {'layers': {lname: {'thickness': layer[0].thickness * 0.97}}}
+            return {}
         if k == 'earlier_name':
             # ask for the name an EARLIER world of the pool already has (any other world, not necessarily the parent)
             return {'name': op.get('_earlier_name', pw.name)}
